@@ -17,11 +17,11 @@ RULE = ("seeded nested queries (derived tables, multiply referenced CTEs, set op
         "distinct = distinct (query text, output column)")
 ASSUMPTIONS = ["columns used only in WHERE / ON / GROUP BY / HAVING do not count as flowing into an output column"]
 SPEC = {
-    "quick": {"shards": 16, "time_cap": 150, "queries": 7000},
+    "quick": {"shards": 16, "time_cap": 150, "queries": 5000},
     "thorough": {"shards": 16, "time_cap": 1500, "queries": 25000},
 }
 FEATS = dict(window=True, any_sub=False, setops_all=False, stars="base-only", cte_cols=True, unqualified=0.4, star_dup_order=False,
-             max_depth=3, using=False, scalar_setop=True)
+             max_depth=3, using=False, scalar_setop=True, nested_with=True)
 
 
 def leaves(node):
@@ -60,17 +60,22 @@ def check_query(ctx, q, tables, i=1):
         ctx.count("duplicate_output_names_skipped")
         return
     truth = {n: {(t.lower(), c.lower()) for t, c in prov} for n, _, prov in q.out}
-    main, ctes = sqlgen.hoist_derived(q)
-    as_cte = ("WITH " + ", ".join(f"{n} AS ({s})" for n, s in ctes) + " " + main) if ctes else main
-    presentations = [("as-written", text, None), ("hoisted-to-ctes", as_cte, None), ("aliases-renamed", rename_aliases(text), None)]
-    if ctes:
-        presentations.append(("via-sources", main, {n: s for n, s in ctes}))
+    presentations = [("as-written", text, None), ("aliases-renamed", rename_aliases(text), None)]
+    if "cte:shadows-outer" not in q.tags:
+        # hoisting every WITH entry into one flat list is only meaning-preserving when no name is re-defined
+        main, ctes = sqlgen.hoist_derived(q)
+        as_cte = ("WITH " + ", ".join(f"{n} AS ({s})" for n, s in ctes) + " " + main) if ctes else main
+        presentations.append(("hoisted-to-ctes", as_cte, None))
+        if ctes:
+            presentations.append(("via-sources", main, {n: s for n, s in ctes}))
     case = {"sql": text}
     for pname, sql, sources in presentations:
         try:
             allnodes = lineage(None, sql, schema=schema, sources=sources)
         except SqlglotError as e:
+            # every generated query is valid over the schema (both engines run it): failing to resolve it is a wrong answer
             ctx.count(f"lineage_sqlglot_error:{pname}")
+            ctx.violation(f"lineage-raises:{pname}:{type(e).__name__}", {"sql": sql, "error": str(e)[:200], "tags": sorted(q.tags)}, case)
             continue
         except RecursionError:
             ctx.count("recursion_error")
